@@ -681,3 +681,82 @@ Print Assumptions C06_Qesn_fit_embeds.
 Print Assumptions C06_fb_vocabulary.
 Print Assumptions C06_chk_fit_fb_is_about_R_model.
 Print Assumptions C06_chk_esn_fit_is_about_R_model.
+
+(* ---- the staging loop is GREEDY on every DAG of ANY size (proofs/FitSem_dag_proofs.v) -------------------------------------
+   Converse of C06_staging_respects_ancestors, for every graph with wf_dagb (duplicate-free topological order):
+   after k+1 rounds of `while trained != offlines`, every offline node all of whose offline strict ancestors were trained in
+   the rounds 0..k-1 has been trained (k = 0: a readout without offline ancestors is trained in the first stage).  With
+   C06_staging_respects_ancestors the stage of a readout is EXACTLY its offline depth (C06_staging_stage_exact): the
+   staging is a function of the graph alone.  Every round trains at least one node, so the loop makes at most one round per
+   offline node (C06_staging_rounds_bound).  `offline g v` is "v is in `offlines`" AND "v is put in `trained` by the scan";
+   the two differ in the real code for a node carrying both rules (open finding fit-staging:offline-and-online-node-hangs).
+   C06_staging_valid_full_statement (validity of Model.fit's symbolic execution for general DAGs) stays open. *)
+From RV Require Import proofs.FitSem_dag_proofs.
+
+Theorem C06_staging_earliest (g : graph) (stg : list stage) :
+  wf_dagb g = true -> get_offline_subgraphs g = Some stg ->
+  let T := train_sets g [] (map s_nodes stg) in
+  forall k b, In b (g_nodes g) -> offline g b = true ->
+    (forall a, anc g a b -> offline g a = true -> exists i Ta, (i < k)%nat /\ nth_error T i = Some Ta /\ In a Ta) ->
+    exists j Tb, (j <= k)%nat /\ nth_error T j = Some Tb /\ In b Tb.
+Proof. exact (fun H => staging_earliest g H stg). Qed.
+
+Theorem C06_staging_stage_exact (g : graph) (stg : list stage) :
+  wf_dagb g = true -> get_offline_subgraphs g = Some stg ->
+  let T := train_sets g [] (map s_nodes stg) in
+  forall j Tb b, nth_error T j = Some Tb -> In b Tb ->
+    (forall a, anc g a b -> offline g a = true -> exists i Ta, (i < j)%nat /\ nth_error T i = Some Ta /\ In a Ta) /\
+    (forall k, (forall a, anc g a b -> offline g a = true -> exists i Ta, (i < k)%nat /\ nth_error T i = Some Ta /\ In a Ta) ->
+               (j <= k)%nat).
+Proof. exact (fun H => staging_stage_exact g H stg). Qed.
+
+Theorem C06_staging_rounds_bound (g : graph) (stg : list stage) :
+  wf_dagb g = true -> get_offline_subgraphs g = Some stg ->
+  (forall Tb, In Tb (train_sets g [] (map s_nodes stg)) -> Tb <> []) /\
+  (length stg <= length (filter (offline g) (g_nodes g)))%nat.
+Proof. exact (fun H H' => conj (staging_stage_nonempty g H stg H') (staging_rounds_bound g H stg H')). Qed.
+
+(* non-vacuity: a 7-node DAG that is not a chain (diamond 0 -> {1 >> 3, 2 >> 4} -> 5 >> 6; readouts 3, 4, 6): the hypotheses
+   hold, 3 has no offline ancestor (stage 0), 6 has the offline ancestors 3 and 4 (stage 1) *)
+Example C06_example_dag7 :
+  wf_dagb g_dag7 = true /\
+  (exists stg, get_offline_subgraphs g_dag7 = Some stg /\
+               map s_nodes stg = [[0; 1; 2; 3; 4]; [3; 4; 5; 6]] /\ train_sets g_dag7 [] (map s_nodes stg) = [[3; 4]; [6]]) /\
+  anc g_dag7 3 6 /\ anc g_dag7 4 6 /\ (forall a, anc g_dag7 a 3 -> offline g_dag7 a = true -> False).
+Proof. exact g_dag7_example. Qed.
+
+Print Assumptions C06_staging_earliest.
+Print Assumptions C06_staging_stage_exact.
+Print Assumptions C06_staging_rounds_bound.
+
+(* C06_staging_valid_full_statement above, AS WRITTEN (no hypothesis on the order of g_nodes), is false: witness g_unsorted =
+   nodes [1; 0], edge 0 -> 1, readout 1 -- not a topological order (Model.nodes always is one): the loop still stages [0], [1]
+   and Model.fit trains 1 on the output of 0, while the explicit procedure, which follows g_nodes, fits 1 before 0 has run.
+   The statement that stays open is the one with wf_dagb (proofs/FitSem_dag_proofs.v: staging_valid_dag_statement, with the
+   list of what is missing); g_dag7 and g_seven are instances of its conclusion. *)
+Theorem C06_staging_valid_full_statement_needs_topo_order : ~ C06_staging_valid_full_statement.
+Proof. exact staging_full_statement_needs_topo_order. Qed.
+Example C06_example_dag7_valid :
+  wf_dagb g_unsorted = false /\ default_valid g_dag7 = true /\ default_valid g_seven = true.
+Proof. split; [vm_compute; reflexivity|exact staging_valid_dag_instances]. Qed.
+Print Assumptions C06_staging_valid_full_statement_needs_topo_order.
+
+(* bounded evidence for the open statement beyond 5 nodes (vm_compute sweeps, proofs/FitSem_dag_proofs.v): every 6-node DAG in
+   topological order whose fan-ins are listed in increasing order of the parents (edge_lists_s), and every FOREST (each node
+   has at most one parent, edge_lists_f) with 6 or 7 nodes, with every non-empty set of single-parent offline nodes *)
+Theorem C06_staging_valid_sorted_6 es off :
+  In es (edge_lists_s 6) -> In off (labellings 6 es) ->
+  let g := mkG (seq 0 6) es off in
+  exists stg, get_offline_subgraphs g = Some stg /\
+              (supportedb g stg = true ->
+               valid_stagingb g (filter (is_input g) (g_nodes g)) (filter (offline g) (g_nodes g)) stg = true).
+Proof. exact (staging_valid_sorted_6 es off). Qed.
+Theorem C06_staging_valid_forest_7 n es off :
+  6 <= n <= 7 -> In es (edge_lists_f n) -> In off (labellings n es) ->
+  let g := mkG (seq 0 n) es off in
+  exists stg, get_offline_subgraphs g = Some stg /\
+              (supportedb g stg = true ->
+               valid_stagingb g (filter (is_input g) (g_nodes g)) (filter (offline g) (g_nodes g)) stg = true).
+Proof. exact (staging_valid_forest_7 n es off). Qed.
+Print Assumptions C06_staging_valid_sorted_6.
+Print Assumptions C06_staging_valid_forest_7.
